@@ -251,6 +251,10 @@ def sym_json(name: str, depth: int, width: int, kind=None, leaf_kind=None, strle
     leaf_kind fixes the kind of every scalar (e.g. 2 = int: structural selection does not inspect scalars).
     """
     k = kind
+    if k is None and isinstance(leaf_kind, (list, tuple)):
+        # scalars restricted to the listed kinds (e.g. [2, 4] = ints and strings)
+        c = sym_choice(name + "K", len(leaf_kind) + (2 if depth > 0 else 0))
+        k = leaf_kind[c] if c < len(leaf_kind) else (5 if c == len(leaf_kind) else 6)
     if k is None:
         if depth > 0:
             if leaf_kind is None:
@@ -261,7 +265,7 @@ def sym_json(name: str, depth: int, width: int, kind=None, leaf_kind=None, strle
         else:
             k = sym_choice(name + "K", 5) if leaf_kind is None else leaf_kind
     if k <= 4:
-        return sym_scalar(name, k, strlen, intbound if k != 2 or leaf_kind is None else None)
+        return sym_scalar(name, k, strlen, intbound if k != 2 or leaf_kind is None or isinstance(leaf_kind, (list, tuple)) else None)
     n = sym_choice(name + "N", min(width, len(names) if k == 6 else width) + 1)
     kids = [sym_json("%s_%d" % (name, j), depth - 1, width, None, leaf_kind, strlen, intbound, names, distinct) for j in range(n)]
     if k == 5:
